@@ -29,7 +29,7 @@ func (c *dnsDBConfig) validate() (err error) {
 	case !c.Enabled:
 		return nil
 	case c.MaxSize <= 0:
-		return newNotPositiveError("size", c.MaxSize)
+		return newNotPositiveError("max_size", c.MaxSize)
 	default:
 		return nil
 	}
